@@ -25,12 +25,20 @@ class Serializer(object):
         self.__serializer = serializer
         self.__deserializer = deserializer
         self.__serializeChecker = serializeChecker
+        self.__unfinishedTmpFile = None
 
     def checkSerializing(self):
         if self.__serializeChecker is not None:
             status = self.__serializeChecker()
             if status in (SERIALIZER_STATE.SUCCESS, SERIALIZER_STATE.FAILED):
                 self.__pid = 0
+                tmpFile, self.__unfinishedTmpFile = self.__unfinishedTmpFile, None
+                if tmpFile is not None and status == SERIALIZER_STATE.SUCCESS:
+                    # Only now the asynchronous serializer has written the whole file
+                    try:
+                        atomicReplace(tmpFile, self.__fileName)
+                    except Exception:
+                        status = SERIALIZER_STATE.FAILED
             return status, self.__currentID
 
         # In-memory case
@@ -86,6 +94,12 @@ class Serializer(object):
             tmpFile = self.__fileName + '.tmp'
             if self.__serializer is not None:
                 self.__serializer(tmpFile, data[1:])
+                if self.__serializeChecker is not None:
+                    # An asynchronous serializer has only started to write. The dump file is
+                    # replaced when the checker reports that the temporary file is complete.
+                    self.__unfinishedTmpFile = tmpFile
+                    self.__pid = -1
+                    return
             else:
                 with open(tmpFile, 'wb') as f:
                     with gzip.GzipFile(fileobj=f, mode='wb') as g:
@@ -140,6 +154,9 @@ class Serializer(object):
                     except OSError:
                         pass
                     self.__pid = 0
+                # (Likewise an asynchronous serializer's file of that older state, when it is complete
+                # later, must not replace the newer snapshot.)
+                self.__unfinishedTmpFile = None
                 atomicReplace(incoming, self.__fileName)
             else:
                 os.remove(incoming)
